@@ -353,7 +353,7 @@ where
             let dist_ptr = self.dist.as_mut_ptr();
 
             for (v, w) in self.digraph.out_neighbors_weighted(u) {
-                let w_next = w_prev + w;
+                let w_next = w_prev.saturating_add(*w);
                 let dist_v = unsafe { *dist_ptr.add(v) };
 
                 if w_next < dist_v {
